@@ -53,6 +53,16 @@ fn main() {
                 let data = rng.bytes(*extra);
                 files.push(FileSpec { name: format!("tail\\odd{k}.bin"), class: "random", data });
             }
+            // files at the compressor's break-even point: the writer's "store raw unless it shrinks" decision must agree with
+            // every reader's "stored size == size means raw" rule (whole small file, and as the tail sector of a larger file)
+            for (k, d) in vh_mpq::cfggen::break_even_contents(&mut rng, cfg.method).into_iter().enumerate() {
+                if k % 2 == 0 && d.len() < cfg.sector_size() {
+                    let mut big = rng.bytes(cfg.sector_size());
+                    big.extend_from_slice(&d);
+                    files.push(FileSpec { name: format!("breakeven\\tail{k}.bin"), class: "break-even", data: big });
+                }
+                files.push(FileSpec { name: format!("breakeven\\whole{k}.bin"), class: "break-even", data: d });
+            }
             // a file without any directory component (key derivation from the plain name)
             files.push(FileSpec { name: format!("plain{idx}.txt"), class: "text", data: vh_common::gen_content(&mut rng, "text", 700) });
             let path = dir.join(format!("a-{idx}.mpq"));
